@@ -1,37 +1,38 @@
 (* Conversion layer between the extracted Coq datatypes (kept as Coq datatypes: positive,
    N, Z, nat) and OCaml/Zarith values, plus the line-based case-file helpers.
    Compiled after model.ml in every property's build dir. Contains no model logic. *)
+module ZA = Z   (* Zarith; the extracted Model may define its own module Z (Coq's BinInt.Z) *)
 open Model
 
-let rec z_of_pos (p : positive) : Z.t =
+let rec z_of_pos (p : positive) : ZA.t =
   match p with
-  | XH -> Z.one
-  | XO q -> Z.shift_left (z_of_pos q) 1
-  | XI q -> Z.succ (Z.shift_left (z_of_pos q) 1)
+  | XH -> ZA.one
+  | XO q -> ZA.shift_left (z_of_pos q) 1
+  | XI q -> ZA.succ (ZA.shift_left (z_of_pos q) 1)
 
-let rec pos_of_z (z : Z.t) : positive =
-  if Z.equal z Z.one then XH
-  else if Z.is_even z then XO (pos_of_z (Z.shift_right z 1))
-  else XI (pos_of_z (Z.shift_right z 1))
+let rec pos_of_z (z : ZA.t) : positive =
+  if ZA.equal z ZA.one then XH
+  else if ZA.is_even z then XO (pos_of_z (ZA.shift_right z 1))
+  else XI (pos_of_z (ZA.shift_right z 1))
 
-let z_of_n (n : n) : Z.t = match n with N0 -> Z.zero | Npos p -> z_of_pos p
-let n_of_z (z : Z.t) : n =
-  if Z.sign z < 0 then failwith "n_of_z: negative" else
-  if Z.sign z = 0 then N0 else Npos (pos_of_z z)
+let z_of_n (n : n) : ZA.t = match n with N0 -> ZA.zero | Npos p -> z_of_pos p
+let n_of_z (z : ZA.t) : n =
+  if ZA.sign z < 0 then failwith "n_of_z: negative" else
+  if ZA.sign z = 0 then N0 else Npos (pos_of_z z)
 
-let zz_of_z (x : z) : Z.t =
-  match x with Z0 -> Z.zero | Zpos p -> z_of_pos p | Zneg p -> Z.neg (z_of_pos p)
-let z_of_zz (z : Z.t) : z =
-  if Z.sign z = 0 then Z0 else if Z.sign z > 0 then Zpos (pos_of_z z) else Zneg (pos_of_z (Z.neg z))
+let zz_of_z (x : z) : ZA.t =
+  match x with Z0 -> ZA.zero | Zpos p -> z_of_pos p | Zneg p -> ZA.neg (z_of_pos p)
+let z_of_zz (z : ZA.t) : z =
+  if ZA.sign z = 0 then Z0 else if ZA.sign z > 0 then Zpos (pos_of_z z) else Zneg (pos_of_z (ZA.neg z))
 
 let rec int_of_nat (n : nat) : int = match n with O -> 0 | S m -> 1 + int_of_nat m
 let rec nat_of_int (i : int) : nat = if i <= 0 then O else S (nat_of_int (i - 1))
 
 (* token-level conversions: decimal for numbers, hex for byte strings ("-" = empty, "~" = nil) *)
-let n_of_tok (s : string) : n = n_of_z (Z.of_string s)
-let tok_of_n (n : n) : string = Z.to_string (z_of_n n)
-let z_of_tok (s : string) : z = z_of_zz (Z.of_string s)
-let tok_of_z (x : z) : string = Z.to_string (zz_of_z x)
+let n_of_tok (s : string) : n = n_of_z (ZA.of_string s)
+let tok_of_n (n : n) : string = ZA.to_string (z_of_n n)
+let z_of_tok (s : string) : z = z_of_zz (ZA.of_string s)
+let tok_of_z (x : z) : string = ZA.to_string (zz_of_z x)
 let nat_of_tok (s : string) : nat = nat_of_int (int_of_string s)
 let tok_of_nat (n : nat) : string = string_of_int (int_of_nat n)
 let bool_of_tok (s : string) : bool = (s = "1" || s = "true" || s = "T")
@@ -43,12 +44,12 @@ let bytes_of_hex (s : string) : n list =
     if len mod 2 <> 0 then failwith ("odd hex: " ^ s);
     let rec go i acc =
       if i < 0 then acc
-      else go (i - 2) (n_of_z (Z.of_int (int_of_string ("0x" ^ String.sub s i 2))) :: acc)
+      else go (i - 2) (n_of_z (ZA.of_int (int_of_string ("0x" ^ String.sub s i 2))) :: acc)
     in go (len - 2) []
   end
 let hex_of_bytes (l : n list) : string =
   if l = [] then "-" else
-  String.concat "" (List.map (fun b -> Printf.sprintf "%02x" (Z.to_int (z_of_n b))) l)
+  String.concat "" (List.map (fun b -> Printf.sprintf "%02x" (ZA.to_int (z_of_n b))) l)
 
 let split_on (sep : string) (toks : string list) : string list list =
   let rec go cur acc = function
